@@ -12,6 +12,7 @@ struct GenCase
     bool strict = true;
     unsigned stages = ST_ALL;
     std::string why, tag, what, stageName = "all";
+    bool mustBeClean = false; // a valid model by construction: parser and validator must not report an error or a warning
 };
 struct GenFamily
 {
@@ -359,6 +360,66 @@ inline GenCase scaleBigCase(uint64_t i)
 }
 inline GenCase scaleHangCase(uint64_t i) { return scaleCaseOf(6, 64, i, true); }
 
+// ================================================================= (f') connection-graph scale: dense and sparse variable equivalence networks
+// every node is a sibling component with the variable of integration 't' (public); an edge is a connection mapping t to t.
+// c0 carries an ODE and a reset (so that the reset-order check, the analyser and both generators walk the network), the
+// last component a constant 'z' outside the network (lookups that fail must still visit every variable only once).
+static const char *CONN_KINDS[] = {"clique", "complete-bipartite", "chain", "star", "ring"};
+static const int CONN_DENSE[] = {4, 8, 12, 16}, CONN_SPARSE[] = {10, 100};
+struct ConnGraph { size_t kind; int n; };
+inline const std::vector<ConnGraph> &connGraphs()
+{
+    static std::vector<ConnGraph> g = [] {
+        std::vector<ConnGraph> r;
+        for (size_t k = 0; k < 2; ++k) for (int n : CONN_DENSE) r.push_back({k, n});
+        for (size_t k = 2; k < 5; ++k) for (int n : CONN_SPARSE) r.push_back({k, n});
+        return r;
+    }();
+    return g;
+}
+inline std::string connDoc(size_t kind, int n)
+{
+    int nodes = kind == 1 ? 2 * n : n;
+    std::vector<std::pair<int, int>> edges;
+    switch (kind) {
+    case 0: for (int i = 0; i < n; ++i) for (int j = i + 1; j < n; ++j) edges.push_back({i, j}); break;
+    case 1: for (int i = 0; i < n; ++i) for (int j = 0; j < n; ++j) edges.push_back({i, n + j}); break;
+    case 2: for (int i = 0; i + 1 < n; ++i) edges.push_back({i, i + 1}); break;
+    case 3: for (int i = 1; i < n; ++i) edges.push_back({0, i}); break;
+    default: for (int i = 0; i < n; ++i) if (n > 2 || i == 0) edges.push_back({i, (i + 1) % n}); break;
+    }
+    std::string d = head20("conn") + "<units name=\"per_second\"><unit units=\"second\" exponent=\"-1\"/></units>";
+    for (int i = 0; i < nodes; ++i) {
+        d += "<component name=\"c" + std::to_string(i) + "\"><variable name=\"t\" units=\"second\" interface=\"public\"/>";
+        if (i == 0) {
+            d += "<variable name=\"x\" units=\"dimensionless\" initial_value=\"0\"/><variable name=\"k\" units=\"per_second\" initial_value=\"1\"/>"
+                 "<reset variable=\"x\" test_variable=\"t\" order=\"1\"><test_value>" MATHOPEN "<cn cellml:units=\"second\">1</cn></math></test_value>"
+                 "<reset_value>" MATHOPEN "<cn cellml:units=\"dimensionless\">0</cn></math></reset_value></reset>"
+                 MATHOPEN "<apply><eq/><apply><diff/><bvar><ci>t</ci></bvar><ci>x</ci></apply><apply><times/><ci>k</ci><ci>x</ci></apply></apply></math>";
+        }
+        if (i == nodes - 1) d += "<variable name=\"z\" units=\"dimensionless\" initial_value=\"3\"/>";
+        d += "</component>";
+    }
+    for (auto &e : edges)
+        d += "<connection component_1=\"c" + std::to_string(e.first) + "\" component_2=\"c" + std::to_string(e.second) + "\"><map_variables variable_1=\"t\" variable_2=\"t\"/></connection>";
+    return d + "</model>";
+}
+inline GenCase connCase(uint64_t i)
+{
+    Radix r(i);
+    size_t st = r.take(N_SINGLE);
+    const ConnGraph &cg = connGraphs()[r.take(connGraphs().size())];
+    GenCase g;
+    g.docs = {{"main.xml", connDoc(cg.kind, cg.n)}};
+    g.strict = true;
+    g.stages = SINGLE_STAGES[st];
+    g.stageName = SINGLE_STAGE_NAMES[st];
+    g.tag = std::string("f:conn-") + CONN_KINDS[cg.kind] + ":" + g.stageName + ":";
+    g.what = std::string("connection graph ") + CONN_KINDS[cg.kind] + " n=" + std::to_string(cg.n);
+    g.mustBeClean = true;
+    return g;
+}
+
 // ================================================================= (g) cycles
 static const char *CYCLE_USES[] = {"unused", "variable", "connection-both-ends", "cn", "imported-units", "imported-component"};
 inline std::string unitsCycle(int len, const char *prefix = "u")
@@ -450,6 +511,7 @@ inline const std::vector<GenFamily> &genFamilies()
         {"shape_t", [] { return q1Count() + q2Count() + q3Count() + t3Count() + t4Count() + t5Count(); }, [](uint64_t i) { return shapeCase(shapeT(i), "e:"); }},
         {"shape_d3", d3Count, [](uint64_t i) { return shapeCase(shapeD3(i), "e3:"); }},
         {"scale", [] { return uint64_t(N_SCALE_KINDS * 3 * N_SINGLE * 2); }, scaleCase},
+        {"conn", [] { return uint64_t(connGraphs().size() * N_SINGLE); }, connCase},
         {"scale_mid", [] { return uint64_t(N_SCALE_KINDS * N_SINGLE * 2); }, scaleMidCase},
         {"scale_big", [] { return uint64_t((N_SCALE_KINDS - 1) * N_SINGLE * 2); }, scaleBigCase},
         {"scale_hang", [] { return uint64_t(N_SINGLE); }, scaleHangCase},
